@@ -302,10 +302,19 @@ def e_applicable(case):
 
 def check(case):
     from .. import inproc
+    walk = case.get('mode') == 'walk'
     case = expand(case)
     mutgen.ensure_seq_uids(case['seq'])
     out = {'labels': [], 'atoms': [], 'nontrivial': False, 'c18_atoms': []}
     seq = case['seq']
+    if walk:
+        # walks are generated valid by the reference model; shrinking must not
+        # leave that domain (e.g. a rename onto the name of a live model)
+        try:
+            R.apply_all(mutgen.ensure_uids(copy.deepcopy(case['spec'])), seq, strict=True)
+        except (R.RefInvalid, KeyError, TypeError, AttributeError):
+            out['rejected'] = 'ref_invalid'
+            return out
     tS = inproc.Trace()
     try:
         snapS = OC.run_S(case, tS)
